@@ -255,3 +255,73 @@ func c04AmountObserved(src string, replace bool, all bool, skip int, take int, l
 		vFail("amount clause parsed into the wrong (all,skip,take,last) tuple: " + src + " selects " + c04Nums(got))
 	}
 }
+
+// VerifC04Long: large windows. The text is k copies of a unit that matches once (k symbolic in [0,K]),
+// k symbolic in [Klo,K], the amount n, s, t symbolic in [0,N] with N in the tens, so that counts cross every power of two and
+// every small internal capacity (queue compaction thresholds, slice growth) of the data structures that
+// hold the window. One clause form per job.
+func VerifC04Long(form int, Klo int, K int, N int, replace int, u int) {
+	units := []string{"a", "ab"}
+	bodies := []string{"'a'", "'a' maybe 'b'"}
+	src := "find all " + bodies[u]
+	if replace != 0 {
+		src = "replace all " + bodies[u] + " with 'r' matchNumber"
+	}
+	a := vParse(src)
+	k := vRange("k", Klo, K)
+	text := ""
+	for i := 0; i < k; i++ {
+		text += units[u]
+	}
+	vNote("source", src)
+	vNoteInt("copies of the unit in the text", k)
+	A := []engine.Match(c04Run(a, text))
+	if len(A) != k {
+		vFail("harness: the long text does not have one match per unit")
+	}
+	min := func(x int, y int) int {
+		if x < y {
+			return x
+		}
+		return y
+	}
+	n := vRange("n", 0, N)
+	vNoteInt("n", n)
+	switch form {
+	case 0:
+		c04Amount(a, 0, false, 0, n, 0)
+		got := c04Run(a, text)
+		if !c04SameList(got, A[:min(n, len(A))]) {
+			vNote("got", c04Nums(got))
+			vFail("take/top n is not A[0:n]")
+		}
+	case 1:
+		c04Amount(a, 1, true, n, 0, 0)
+		got := c04Run(a, text)
+		if !c04SameList(got, A[min(n, len(A)):]) {
+			vNote("got", c04Nums(got))
+			vFail("skip s is not A[s:]")
+		}
+	case 2:
+		t := vRange("t", 0, N)
+		vNoteInt("t", t)
+		c04Amount(a, 2, false, n, t, 0)
+		got := c04Run(a, text)
+		if !c04SameList(got, A[min(n, len(A)):min(n+t, len(A))]) {
+			vNote("got", c04Nums(got))
+			vFail("skip s take t is not A[s:s+t]")
+		}
+	case 3:
+		vAssume(n >= 1)
+		c04Amount(a, 3, true, 0, 0, n)
+		got := c04Run(a, text)
+		from := len(A) - n
+		if from < 0 {
+			from = 0
+		}
+		if !c04SameList(got, A[from:]) {
+			vNote("got", c04Nums(got))
+			vFail("last n is not the final n elements of A")
+		}
+	}
+}
